@@ -3,6 +3,7 @@
   (success, error, limit exceeded, out of fuel), by induction on fuel over the whole mutual block.
 -/
 import Svgdx.Ctl.Gen
+import Svgdx.Proofs.DefaultsState
 import Mathlib.Tactic.Linarith
 namespace Svgdx.Ctl
 open Svgdx
@@ -229,6 +230,11 @@ theorem inv_reusePrepare (ev : Evalr ρ) (st : St ρ) (re : Elem) (h : st.scopes
           · exact Inv.refl _ h1
           · exact inv_updateIf ev _ _ _ h1
 
+theorem inv_genDefaults (st : St ρ) (kids : Option Nodes) (h : st.scopes ≠ []) :
+    Inv st (genDefaults st kids).1 :=
+  have d := defStep_genDefaults st kids
+  ⟨d.depth, d.tail, d.ne h, d.elemStack, d.inSpecs⟩
+
 /-- the invariant for every function of the mutual block at a given fuel -/
 structure AllInv (ev : Evalr ρ) (fuel : Nat) : Prop where
   genElem : ∀ (st : St ρ) e kids, st.scopes ≠ [] → Inv st (genElem ev fuel st e kids).1
@@ -286,7 +292,7 @@ theorem dispatch_step (st : St ρ) e kids (h : st.scopes ≠ []) :
   split; · exact ih.genSpecs st kids h
   split; · exact inv_genVar ev st e h
   split; · exact ih.genIf st e kids h
-  split; · exact inv_of_fields _ _ h rfl rfl rfl rfl
+  split; · exact inv_genDefaults st kids h
   split; · exact ih.genFor st e kids h
   split; · exact ih.genGroup st e kids h
   split
@@ -444,7 +450,7 @@ theorem genNode_step (st : St ρ) n (h : st.scopes ≠ []) :
   cases n with
   | elem e kids tail =>
     unfold Ctl.genNode
-    apply inv_seq _ _ (ih.genElem st e kids h)
+    apply inv_seq _ _ (ih.genElem st (leafDefaults st e kids) kids h)
     intro h1 r
     exact Inv.refl _ h1
   | comment c tail => unfold Ctl.genNode; exact Inv.refl st h
